@@ -1,5 +1,6 @@
 import Walrus.Proofs.Sem
 import Walrus.Proofs.Rename
+import Walrus.Proofs.Bridge
 
 /-!
 # C01 — parse → emit preserves execution behaviour
@@ -25,9 +26,17 @@ unconditional transfer in the same sequence (`SL.elide`), and renumbers entity o
 * **Tie to the code, checked on every case**: the driver request `elidetie` compares the bodies of
   walrus's real output with `SL.elide` of the real input's bodies (modulo operand renumbering and
   the normal form of block types); the whole-module model predicts the output exactly.
+* **Proved, for every body**: what `emit ∘ parse` writes for a body (`outL`, which
+  `C03.body_round_trip_in_source_terms` proves to be the output of the modelled parse and emit), read
+  back by the interpreter, *is* `ren ρ (elide t)` for `t` the interpreter's reading of the source
+  (`written_body_is_ren_elide_of_source`), and therefore executes as the source body does
+  (`written_body_behaves_as_source`) — provided the parse-time and emit-time maps take the surviving
+  operators and block types where `ρ` takes them (`agreeL`, decidable; evaluated by `rentie` for
+  every function of every case with the environment and maps of the modelled emission).
 * Not theorems (hence `…_partial`): that the observation of a module does not depend on how uids
   are assigned (a decoded module gets position = uid; the theorem speaks of the output re-indexed to
-  the input's uids), and that walrus's output *is* `ren (elide input)`.  Both are checked on every case:
+  the input's uids), and that the whole of walrus's output (all sections) *is* `ren (elide input)`.
+  Both are checked on every case:
   the driver request `rentie` evaluates the hypotheses of the renumbering theorem (`EnvRen`) on the
   real input/output pair with the maps the model computes, runs the output under both uid
   assignments, and the side-by-side execution oracle compares input and output end to end.
@@ -35,6 +44,8 @@ unconditional transfer in the same sequence (`SL.elide`), and renumbers entity o
 namespace Walrus
 namespace C01
 open Walrus.Sem
+
+def swap01' (n : Nat) : Nat := if n = 0 then 1 else if n = 1 then 0 else n
 
 /-- calls into the module whose bodies were elided return, trap, trace and leave the store exactly
     as calls into the original module -/
@@ -79,6 +90,49 @@ theorem renumbered_body_behaves_the_same (ρ : Ren) (C' C : Ctx) (hc : CtxRen ρ
     (hr : RecRen ρ C' C R' R) (body : SL) (s : St) (hl : body.All (localOK C' C ρ)) :
     execL C' R' (body.ren ρ) s = execL C R body s :=
   ren_execL ρ C' C hc R' R hr body s hl
+
+/-- **the written body is the renumbered elided source body**: if the interpreter reads the
+    source operators of a well-nested body as the tree `t`, then it reads what `emit ∘ parse` writes
+    for that body (`outL`) as `ren ρ (elide t)`: `nop`s and everything behind an unconditional
+    transfer gone, constructs nested as before, an `else` for every `if`, operands and block types
+    renumbered — for every body, whenever the maps agree with `ρ` on what survives -/
+theorem written_body_is_ren_elide_of_source (e : PEnv) (m : IdMaps) (ρ : Ren) (body : PL) (hw : body.WF)
+    (endLoc : Nat) (ops : List (Nat × Op)) (u : Bool) (ho : outL e m false body = some (ops, u))
+    (t : SL) (ht : structureBody ((body.flat ++ [(opEnd, endLoc)]).map (·.1)) = some t)
+    (ha : agreeL e m ρ t.elide = true) :
+    structureBody (ops.map (·.2) ++ [⟨"End", []⟩]) = some (t.elide.ren ρ) :=
+  round_trip_reads_as_ren_elide e m ρ body hw endLoc ops u ho t ht ha
+
+/-- … and so the written body executes exactly as the source body, in every state, for any meaning
+    of calls and loop re-entry that is related the way `invoke_ren` and `invoke_elide` relate them -/
+theorem written_body_behaves_as_source (e : PEnv) (m : IdMaps) (ρ : Ren) (body : PL) (hw : body.WF)
+    (endLoc : Nat) (ops : List (Nat × Op)) (u : Bool) (ho : outL e m false body = some (ops, u))
+    (t : SL) (ht : structureBody ((body.flat ++ [(opEnd, endLoc)]).map (·.1)) = some t)
+    (ha : agreeL e m ρ t.elide = true)
+    (C' C : Ctx) (hc : CtxRen ρ C' C) (R'' R' R : Rec) (hr : RecRen ρ C' C R'' R') (he : RecRel R' R)
+    (hl : t.elide.All (localOK C' C ρ)) :
+    ∃ t', structureBody (ops.map (·.2) ++ [⟨"End", []⟩]) = some t' ∧
+      ∀ s, execL C' R'' t' s = execL C R t s := by
+  refine ⟨_, written_body_is_ren_elide_of_source e m ρ body hw endLoc ops u ho t ht ha, fun s => ?_⟩
+  rw [ren_execL ρ C' C hc R'' R' hr t.elide s hl, elide_execL C R' R he t s]
+
+-- non-vacuity: a body with a nop, a call, a block whose branch is followed by dead code, an `if`
+-- without `else`; functions 0 and 1 swapped by the emit-time map and by ρ
+def srcBody : PL :=
+  .cons (.op ⟨"Nop", []⟩ 1)
+  (.cons (.op ⟨"Call", [.ref "f" 1]⟩ 2)
+  (.cons (.blk ⟨"Block", [.bt .empty]⟩ 3
+      (.cons (.op ⟨"Br", [.ref "l" 0]⟩ 4) (.cons (.op ⟨"Drop", []⟩ 5) .nil)) 6)
+  (.cons (.op ⟨"I32Const", [.num 1]⟩ 7)
+  (.cons (.if1 ⟨"If", [.bt .empty]⟩ 8 (.cons (.op ⟨"Call", [.ref "f" 0]⟩ 9) .nil) 10) .nil))))
+def srcEnv : PEnv := ⟨[0, 1], [], [], []⟩
+def srcMaps : IdMaps := { funcs := [(0, 1), (1, 0)] }
+def srcRen : Ren := ⟨swap01', id, id, id⟩
+example : srcBody.WF ∧ agreeL srcEnv srcMaps srcRen srcBody.toSem.elide = true ∧
+    (outL srcEnv srcMaps false srcBody).map (·.1.map (·.2)) = some
+      [⟨"Call", [.ref "f" 0]⟩, ⟨"Block", [.bt .empty]⟩, ⟨"Br", [.ref "l" 0]⟩, ⟨"End", []⟩,
+       ⟨"I32Const", [.num 1]⟩, ⟨"If", [.bt .empty]⟩, ⟨"Call", [.ref "f" 1]⟩, ⟨"Else", []⟩, ⟨"End", []⟩] := by
+  refine ⟨by simp [srcBody, PL.WF, PI.WF, isStructural], by decide, by decide⟩
 
 -- non-vacuity: elision does remove instructions, including a nested block after a branch
 def sampleBody : SL := SL.ofList
